@@ -24,25 +24,14 @@ ACTIONS = list(range(9))
 SNP = [2, 3, 4]
 STATUS_NAT = [0, 1, 2, 15, 16, 17, 31, 32, 33, 34, 35, 47, 48, 49, 50, 51, 63, 64, 65, 66, 67, 79, 80, 81, 95,
               96, 97, 98, 111, 112, 114, 127, 128, 130, 143]
-STD_ACTION = {"CREATE_FILE_SNM": 0, "DELETE_FILE_SNN": 1, "RENAME_FILE_SNP": 2, "APPEND_FILE_SNP": 3, "REPLACE_FILE_SNP": 4,
-              "CREATE_DIR_SNN": 5, "REMOVE_DIR_SNN": 6, "DENY_FILE_SMM": 7, "DENY_DIR_SNN": 8}
+# name -> code of the standard (727.0-B-5 tables 5-16..5-19): the shared tables of core.STD_NAMES, which the ops also use to
+# obtain every member BY NAME (core.std_member) and to compare decoded codes with the named members (core.std_code)
+STD_ACTION = core.STD_NAMES["FilestoreActionCode"]
 # status code = action code * 16 + status nibble of table 5-18
-STD_STATUS = {"SUCCESS": 0, "NOT_PERFORMED": 15, "APPEND_FROM_DATA_FILE_NOT_EXISTS": 2, "CREATE_SUCCESS": 0, "CREATE_NOT_ALLOWED": 1,
-              "CREATE_NOT_PERFORMED": 15, "DELETE_SUCCESS": 16, "DELETE_FILE_DOES_NOT_EXIST": 17, "DELETE_NOT_ALLOWED": 31,
-              "RENAME_SUCCESS": 32, "RENAME_OLD_FILE_DOES_NOT_EXIST": 33, "RENAME_NEW_FILE_DOES_EXIST": 34, "RENAME_NOT_ALLOWED": 35,
-              "RENAME_NOT_PERFORMED": 47, "APPEND_SUCCESS": 48, "APPEND_FILE_NAME_ONE_NOT_EXISTS": 49,
-              "APPEND_FILE_NAME_TWO_NOT_EXISTS": 50, "APPEND_NOT_ALLOWED": 51, "APPEND_NOT_PERFORMED": 63, "REPLACE_SUCCESS": 64,
-              "REPLACE_FILE_NAME_ONE_TO_BE_REPLACED_DOES_NOT_EXIST": 65, "REPLACE_FILE_NAME_TWO_REPLACE_SOURCE_NOT_EXIST": 66,
-              "REPLACE_NOT_ALLOWED": 67, "REPLACE_NOT_PERFORMED": 79, "CREATE_DIR_SUCCESS": 80, "CREATE_DIR_CAN_NOT_BE_CREATED": 81,
-              "CREATE_DIR_NOT_PERFORMED": 95, "REMOVE_DIR_SUCCESS": 96, "REMOVE_DIR_DOES_NOT_EXIST": 97, "REMOVE_DIR_NOT_ALLOWED": 98,
-              "REMOVE_DIR_NOT_PERFORMED": 111, "DENY_FILE_DEL_SUCCESS": 112, "DENY_FILE_DEL_NOT_ALLOWED": 114,
-              "DENY_FILE_DEL_NOT_PERFORMED": 127, "DENY_DIR_DEL_SUCCESS": 128, "DENY_DIR_DEL_NOT_ALLOWED": 130,
-              "DENY_DIR_DEL_NOT_PERFORMED": 143, "INVALID": -1}
-STD_CONDITION = {"NO_CONDITION_FIELD": -1, "NO_ERROR": 0, "POSITIVE_ACK_LIMIT_REACHED": 1, "KEEP_ALIVE_LIMIT_REACHED": 2,
-                 "INVALID_TRANSMISSION_MODE": 3, "FILESTORE_REJECTION": 4, "FILE_CHECKSUM_FAILURE": 5, "FILE_SIZE_ERROR": 6,
-                 "NAK_LIMIT_REACHED": 7, "INACTIVITY_DETECTED": 8, "CHECK_LIMIT_REACHED": 10, "UNSUPPORTED_CHECKSUM_TYPE": 11,
-                 "SUSPEND_REQUEST_RECEIVED": 14, "CANCEL_REQUEST_RECEIVED": 15}
-STD_HANDLER = {"NOTICE_OF_CANCELLATION": 1, "NOTICE_OF_SUSPENSION": 2, "IGNORE_ERROR": 3, "ABANDON_TRANSACTION": 4}
+STD_STATUS = core.STD_NAMES["FilestoreResponseStatusCode"]
+# (the members the model hard-codes: 1001 'invalid file structure' has no member in the library)
+STD_CONDITION = {n: v for n, v in core.STD_NAMES["ConditionCode"].items() if n != "INVALID_FILE_STRUCTURE"}
+STD_HANDLER = core.STD_NAMES["FaultHandlerCode"]
 CLS_TYPE = {"fs_request": 0, "fs_response": 1, "msg_to_user": 2, "fault_handler": 4, "flow_label": 5, "entity_id": 6}
 WRAP = {"entity_id": EntityIdTlv, "flow_label": FlowLabelTlv, "msg_to_user": MessageToUserTlv}
 CLASSES = {"entity_id": EntityIdTlv, "flow_label": FlowLabelTlv, "msg_to_user": MessageToUserTlv,
@@ -53,10 +42,17 @@ HC_MEMBERS = [1, 2, 3, 4]
 
 
 def _enum(E, v):
-    try:
-        return E(v)
-    except ValueError:
-        return v
+    """the member an application would write for the code `v`: the member of E with the STANDARD NAME of the code
+    (core.std_member); the IntEnum member of that value / the plain int for codes without a standard name, as before"""
+    return core.std_member(E, v)
+
+
+def _member(E, v):
+    """like _enum, for the helpers that are documented for members only (a non-member code raises ValueError)"""
+    return core.std_member(E, v, strict=True)
+
+
+_code = core.std_code    # int(decoded value), after `decoded == E.NAME  <=>  the code is the standard's code for NAME`
 
 
 def _name(h: str) -> str:
@@ -125,7 +121,7 @@ def op_lv_unpack(a):
 
 # ---------------------------------------------------------------- generic TLV
 def _tlv_fields(t):
-    return {"type": int(t.tlv_type), "value": hx(t.value), "packet_len": int(t.packet_len)}
+    return {"type": _code(TlvType, t.tlv_type), "value": hx(t.value), "packet_len": int(t.packet_len)}
 
 
 def _generic(a) -> CfdpTlv:
@@ -202,8 +198,8 @@ def op_tlv_msg_reserved(a):
 
 # ---------------------------------------------------------------- fault handler override
 def _fh_fields(o):
-    return {"type": int(o.tlv_type), "cc": int(o.condition_code), "hc": int(o.handler_code), "value": hx(o.value),
-            "packet_len": int(o.packet_len)}
+    return {"type": _code(TlvType, o.tlv_type), "cc": _code(ConditionCode, o.condition_code),
+            "hc": _code(FaultHandlerCode, o.handler_code), "value": hx(o.value), "packet_len": int(o.packet_len)}
 
 
 def _fh_decoded(o):
@@ -217,8 +213,7 @@ def _fh_out(o):
     _need(isinstance(o, FaultHandlerOverrideTlv), "result is not a FaultHandlerOverrideTlv")
     raw = _pack_checked(o)
     _need(raw[0] == 4 == int(o.tlv_type), "fault-handler object carries a foreign type octet")
-    return {"type": int(o.tlv_type), "cc": int(o.condition_code), "hc": int(o.handler_code), "value": hx(o.value),
-            "packet_len": int(o.packet_len), "raw": hx(raw)}
+    return {**_fh_fields(o), "raw": hx(raw)}
 
 
 def op_tlv_fh_pack(a):
@@ -251,7 +246,8 @@ def _fsreq(a) -> FileStoreRequestTlv:
 
 
 def _fsreq_fields(o):
-    return {"type": int(o.tlv_type), "action": int(o.action_code), "first": hx(o.first_file_name.encode()),
+    return {"type": _code(TlvType, o.tlv_type), "action": _code(FilestoreActionCode, o.action_code),
+            "first": hx(o.first_file_name.encode()),
             "second": hx(o.second_file_name.encode()), "packet_len": int(o.packet_len)}
 
 
@@ -314,7 +310,8 @@ def _fsresp(a) -> FileStoreResponseTlv:
 
 
 def _fsresp_fields(o):
-    return {"type": int(o.tlv_type), "action": int(o.action_code), "status": int(o.status_code),
+    return {"type": _code(TlvType, o.tlv_type), "action": _code(FilestoreActionCode, o.action_code),
+            "status": _code(FilestoreResponseStatusCode, o.status_code),
             "first": hx(o.first_file_name.encode()), "second": hx(o.second_file_name.encode()),
             "msg": hx(o.filestore_msg.value), "packet_len": int(o.packet_len)}
 
@@ -386,7 +383,7 @@ def _build(h):
 def op_tlv_holder(a):
     obj = _build(a["held"])
     holder = TlvHolder(obj)
-    _need(int(holder.tlv_type) == int(obj.tlv_type), "TlvHolder.tlv_type differs from the held object's type")
+    _need(_code(TlvType, holder.tlv_type) == _code(TlvType, obj.tlv_type), "TlvHolder.tlv_type differs from the held object's type")
     fn = {"entity_id": holder.to_entity_id, "flow_label": holder.to_flow_label, "msg_to_user": holder.to_msg_to_user,
           "fault_handler": holder.to_fault_handler_override, "fs_request": holder.to_fs_request,
           "fs_response": holder.to_fs_response}[a["to"]]
@@ -399,13 +396,13 @@ def op_tlv_holder(a):
     _need(isinstance(r, cls), f"TlvHolder conversion to {a['to']} returned a {type(r).__name__}")
     raw = _pack_checked(r)
     _need(raw[0] == CLS_TYPE[a["to"]] == int(r.tlv_type), "converted object carries a foreign type octet")
-    return {"type": int(r.tlv_type), "packet_len": int(r.packet_len), "raw": hx(raw)}
+    return {"type": _code(TlvType, r.tlv_type), "packet_len": int(r.packet_len), "raw": hx(raw)}
 
 
 def op_tlv_any(a):
     o = _build(a["held"])
     raw = _pack_checked(o)
-    return {"type": int(o.tlv_type), "packet_len": int(o.packet_len), "raw": hx(raw), "value": hx(o.value)}
+    return {"type": _code(TlvType, o.tlv_type), "packet_len": int(o.packet_len), "raw": hx(raw), "value": hx(o.value)}
 
 
 def op_tlv_eq(a):
@@ -423,16 +420,16 @@ def op_tlv_check_type(a):
 
 
 def op_tlv_status_to_int(a):
-    return {"nibble": int(map_enum_status_code_to_int(FilestoreResponseStatusCode(a["status"])))}
+    return {"nibble": int(map_enum_status_code_to_int(_member(FilestoreResponseStatusCode, a["status"])))}
 
 
 def op_tlv_status_to_action(a):
-    ac, st = map_enum_status_code_to_action_status_code(FilestoreResponseStatusCode(a["status"]))
-    return {"action": int(ac), "nibble": int(st)}
+    ac, st = map_enum_status_code_to_action_status_code(_member(FilestoreResponseStatusCode, a["status"]))
+    return {"action": _code(FilestoreActionCode, ac), "nibble": int(st)}
 
 
 def op_tlv_status_from_int(a):
-    return {"status": int(map_int_status_code_to_enum(FilestoreActionCode(a["action"]), a["status"]))}
+    return {"status": _code(FilestoreResponseStatusCode, map_int_status_code_to_enum(_member(FilestoreActionCode, a["action"]), a["status"]))}
 
 
 def op_tlv_utf8(a):
@@ -553,7 +550,9 @@ class C08(Prop):
                     "tied to CPython's strict decoder by the tlv_utf8 op (exhaustive on 1-2 octets, structured beyond)",
                     "TypeError of TlvHolder.to_* for a concrete object of another class is mapped to the payload "
                     "{'refused':'type'} on both sides (DESIGN section 8 interpretation of 'type-mismatch error')"]
-    assumptions = ["TLV types, action codes, condition/handler codes are passed as members of the library's enums; "
+    assumptions = ["TLV types, action codes, status codes, condition/handler codes are passed as the members of the library's enums "
+                   "that carry the STANDARD NAME of the code (core.std_member / core.STD_NAMES; codes without a standard name as the "
+                   "member of that value or the plain int), and decoded codes are compared with the members of those names; "
                    "file names are str values that str.encode() accepts (no lone surrogates)"]
 
     def impl_ops(self):
